@@ -272,23 +272,15 @@ pub fn run_cls_job(job: &Value) {
     }
 }
 
-pub fn replay(f: &Value) -> i32 {
-    let Some(src) = f["class"].as_str() else { return 2 };
-    let Some(mut inp) = load(src) else {
-        println!("cannot load {src}");
-        return 2;
-    };
+pub fn run_witness(f: &Value) -> Option<(String, Vec<Panic>)> {
+    let src = f["class"].as_str()?;
+    let mut inp = load(src)?;
     let var: Vec<CV> = serde_json::from_value(f["variation"].clone()).unwrap_or_default();
     for v in &var {
         if !apply(&mut inp, v) {
-            println!("variation {:?} does not apply", v);
-            return 2;
+            return None;
         }
     }
     let (stage, panics) = run_one(inp);
-    println!("from_contract_class on {src} with {:?}: {stage}", var);
-    for p in &panics {
-        println!("PANIC in {} at {}: {}", p.at, p.loc, p.msg);
-    }
-    if panics.is_empty() { 0 } else { 1 }
+    Some((format!("from_contract_class on {src} with {:?}: {stage}", var), panics))
 }
